@@ -330,6 +330,16 @@ def _something_dropped(k, cond):
             return "F"
         if ko is not None and ko.kind == "COMPR" and ko.source == SELF_NEXT and ko.filter == simp(("cmp", "==", SF(REACH), C(0))):
             return "D"
+        # the length of a list does not depend on what its elements were mapped to: a column of S is as long as S, an index table
+        # of the live positions is as long as the list of live successors
+        le = k.listexpr(a)
+        if le is not None and le[0] == SELF_NEXT and le[3]:
+            if le[1] == TRUE:
+                return "S"
+            if _alive_filter_verdict(_dead_set_filter(k.ctx, k, le[1]) or le[1]) is None:
+                return "F"
+            if le[1] == simp(("cmp", "==", SF(REACH), C(0))):
+                return "D"
         return None
     # not (True if a else b)  ==  not a and not b;  a conjunction: one conjunct says it, the others follow from it
     if cond[0] == "not" and cond[1][0] == "ite" and cond[1][2] == TRUE:
@@ -347,6 +357,33 @@ def _something_dropped(k, cond):
         le = k.listexpr(cond[3])
         if le is not None and le[0] == SELF_NEXT and le[1] == TRUE and le[2] == SF(REACH) and le[3]:
             return True
+    # `not all(alive for each successor)` / `any(dead for each successor)`: some successor is filtered out
+    def _quant(c):
+        neg = False
+        while True:
+            if c[0] == "not":
+                neg, c = not neg, c[1]
+            elif c[0] == "truthy" or (c[0] == "call" and c[1] == "bool" and len(c[2]) == 1 and not c[3]):
+                c = c[1] if c[0] == "truthy" else c[2][0]
+            else:
+                break
+        if c[0] == "call" and c[1] in ("all", "any") and len(c[2]) == 1 and not c[3]:
+            return c[1], neg, c[2][0]
+        return None
+    q_ = _quant(cond)
+    if q_ is not None:
+        le = k.listexpr(q_[2])
+        if le is not None and le[0] == SELF_NEXT and le[1] == TRUE and le[3]:
+            e_ = le[2]
+            while e_[0] == "truthy":
+                e_ = e_[1]
+            alive = _alive_filter_verdict(_dead_set_filter(k.ctx, k, e_) or e_) is None
+            dead = e_ == simp(("cmp", "==", SF(REACH), C(0)))
+            if (q_[0] == "all" and q_[1] and alive) or (q_[0] == "any" and not q_[1] and dead):
+                return True
+            if (q_[0] == "all" and not q_[1] and alive) or (q_[0] == "any" and q_[1] and dead):
+                return False
+        return None
     while cond[0] == "truthy" and (cond[1][0] == "truthy" or (cond[1][0] == "call" and cond[1][1] == "bool" and len(cond[1][2]) == 1)):
         cond = ("truthy", cond[1][1] if cond[1][0] == "truthy" else cond[1][2][0])
     if cond[0] == "truthy" and kind(("call", "len", (cond[1],), ())) == "D":
